@@ -2464,6 +2464,18 @@ M('C07', 'attrs-truthiness-compared', DE, "            if getattr(key, attr) != 
 M('C07', 'call-check-only-with-identity', DE, "                self.check_attributes(key)\n", "                if kwargs.get('user') is not None:\n                    self.check_attributes(key)\n", 'C07.5')
 M('C07', 'call-check-only-when-subkey-selected', DE, "                self.check_attributes(key)\n", "                if _key is not key:\n                    self.check_attributes(key)\n", 'C07.5')
 M('C07', 'call-unguarded-fast-path', DE, "    def __call__(self, action):\n", "    def __call__(self, action):\n        if not self.conditions:\n            return action\n\n", 'C07.5')
+# --- wave 3: width recomputed on copy, opaque / wholesale copies into the public packet (C07.7 incl. the shared serialised-attribute rule)
+_W3_ECP = "        pk = self.__class__()\n        pk.bytelen = self.bytelen\n        pk.format = self.format\n        pk.x = copy.copy(self.x)\n        pk.y = copy.copy(self.y)"
+M('C07', 'ecpoint-copy-width-recomputed', FL, _W3_ECP, "        pk = self.__class__()\n        pk.bytelen = (max(self.x.bit_length(), self.y.bit_length()) + 7) // 8\n        pk.format = self.format\n        pk.x = copy.copy(self.x)\n        pk.y = copy.copy(self.y)", 'C07.7')
+M('C07', 'ecpoint-copy-format-defaulted', FL, _W3_ECP, "        pk = self.__class__()\n        pk.bytelen = self.bytelen\n        pk.x = copy.copy(self.x)\n        pk.y = copy.copy(self.y)", 'C07.7')
+M('C07', 'ecpoint-copy-drops-y', FL, _W3_ECP, "        pk = self.__class__()\n        pk.bytelen = self.bytelen\n        pk.format = self.format\n        pk.x = copy.copy(self.x)\n        pk.y = copy.copy(self.x)", 'C07.7')
+T('C07', 'twin-ecpoint-copy-order', FL, _W3_ECP, "        point = type(self)()\n        point.x = copy.copy(self.x)\n        point.y = copy.copy(self.y)\n        point.format = self.format\n        point.bytelen = self.bytelen\n        pk = point")
+_W3_PUBC = "        for pm in self.keymaterial.__pubfields__:\n            setattr(pk.keymaterial, pm, copy.copy(getattr(self.keymaterial, pm)))"
+M('C07', 'pubkey-copies-all-instance-fields', PK, _W3_PUBC, "        for pm in vars(self.keymaterial):\n            setattr(pk.keymaterial, pm, copy.copy(getattr(self.keymaterial, pm)))", 'C07.1')
+M('C07', 'pubkey-shares-keymaterial-object', PK, _W3_PUBC, "        pk.keymaterial = self.keymaterial", 'C07.1')
+M('C07', 'pubkey-copies-private-fields-too', PK, _W3_PUBC, "        for pm in self.keymaterial.__pubfields__ + self.keymaterial.__privfields__:\n            if hasattr(pk.keymaterial, pm):\n                setattr(pk.keymaterial, pm, copy.copy(getattr(self.keymaterial, pm)))", 'C07.1')
+M('C07', 'userid-copy-drops-header', PK, "        uid = UserID()\n        uid.header = copy.copy(self.header)\n        uid.uid = self.uid", "        uid = UserID()\n        uid.uid = self.uid", 'C07.7')
+M('C07', 'sigpacket-copy-rehashes-subpackets', PK, "        spkt.subpackets = copy.copy(self.subpackets)\n", "        for sp in self.subpackets._hashed_sp.values():\n            spkt.subpackets['h_' + sp.__class__.__name__] = sp\n        for sp in self.subpackets._unhashed_sp.values():\n            spkt.subpackets[sp.__class__.__name__] = sp\n", 'C07.7')
 # =============================================================================================== C16
 M('C16', 'sign-drops-unlocked', PGP, "    @KeyAction(KeyFlags.Sign, is_unlocked=True, is_public=False)", "    @KeyAction(KeyFlags.Sign, is_public=False)", 'C16.1')
 M('C16', 'encrypt-private', PGP, "    @KeyAction(KeyFlags.EncryptCommunications, KeyFlags.EncryptStorage, is_public=True)", "    @KeyAction(KeyFlags.EncryptCommunications, KeyFlags.EncryptStorage, is_public=False)", 'C16.1')
@@ -2664,6 +2676,19 @@ M('C16', 'call-no-key-check-after-usage', DE, "            if key._key is None:\
 M('C16', 'usage-scan-stops-at-first-subkey', DE, "                if self.flags & set(_key._get_key_flags(user)):\n                    break\n", "                if self.flags & set(_key._get_key_flags(user)) or _key is not key:\n                    break\n", 'C16.3')
 M('C16', 'usage-refusal-only-for-primary', DE, "                if key._require_usage_flags:\n                    raise PGPError(warning)", "                if key._require_usage_flags and key.is_primary:\n                    raise PGPError(warning)", 'C16.3')
 M('C16', 'call-unguarded-fast-path', DE, "    def __call__(self, action):\n", "    def __call__(self, action):\n        if not self.flags and not self.conditions:\n            return action\n\n", 'C16.2')
+# --- wave 3: identity selection by exact match (get_uid evaluated on concrete strings), remembered flags, inner elements
+_W3_GU = "            return next((u for u in self._uids if search in filter(lambda a: a is not None, (u.name, u.comment, u.email))), None)"
+M('C16', 'getuid-substring', PGP, _W3_GU, "            return next((u for u in self._uids\n                         if any(search in a for a in (u.name, u.comment, u.email) if a is not None)), None)", 'C16.5')
+M('C16', 'getuid-case-insensitive', PGP, _W3_GU, "            return next((u for u in self._uids if search.lower() in [a.lower() for a in (u.name, u.comment, u.email) if a is not None]), None)", 'C16.5')
+M('C16', 'getuid-prefix', PGP, _W3_GU, "            return next((u for u in self._uids if any(a.startswith(search) for a in (u.name, u.comment, u.email) if a)), None)", 'C16.5')
+M('C16', 'getuid-stripped', PGP, _W3_GU, "            return next((u for u in self._uids if search.strip() in filter(lambda a: a is not None, (u.name, u.comment, u.email))), None)", 'C16.5')
+M('C16', 'getuid-falls-back-to-first', PGP, _W3_GU, "            return next((u for u in self._uids if search in filter(lambda a: a is not None, (u.name, u.comment, u.email))),\n                        next(iter(self._uids), None))", 'C16.5')
+M('C16', 'getuid-name-only-substring-of-joined', PGP, _W3_GU, "            return next((u for u in self._uids if search in ' '.join(a for a in (u.name, u.comment, u.email) if a)), None)", 'C16.5')
+T('C16', 'twin-getuid-loop', PGP, _W3_GU, "            for uid in self._uids:\n                fields = [a for a in (uid.name, uid.comment, uid.email) if a is not None]\n                if search in fields:\n                    return uid\n            return None")
+T('C16', 'twin-getuid-equality', PGP, _W3_GU, "            return next((u for u in self._uids if any(a == search for a in (u.name, u.comment, u.email) if a is not None)), None)")
+_W3_SUBK = "        return next(reversed(list(self.self_signatures))).key_flags"
+M('C16', 'subkey-flags-cached-on-object', PGP, _W3_SUBK, "        if getattr(self, '_flags_cache', None) is None:\n            self._flags_cache = next(reversed(list(self.self_signatures))).key_flags\n        return self._flags_cache", 'C16.5')
+M('C16', 'subkey-flags-second-newest', PGP, _W3_SUBK, "        return list(self.self_signatures)[-2:][0].key_flags", 'C16.5')
 M('C16', 'unlocked-public-short-circuit-lost', PGP, "        if not self.is_protected:\n            return True\n\n        return self._key.unlocked", "        return True", 'C16.2')
 T('C16', 'twin-delegate-loop-skip', PGP, _C16_DEL, "            for skid in self.subkeys:\n                if skid not in message.encrypters:\n                    continue\n                return self.subkeys[skid].decrypt(message)\n")
 
